@@ -289,10 +289,48 @@ fn probe_cursor_equivalence_histories() {
         let s = penc(n);
         let mut x: u64 = 0x9E37_79B9_7F4A_7C15 ^ (n as u64);
         let mut next = || { x ^= x << 13; x ^= x >> 7; x ^= x << 17; x };
+        // directed histories: with chunk k-1 decrypted in the cache, move to a position just after the boundary of chunk k (the
+        // first bytes of a chunk are where tag-less and tagged positions disagree most) by each kind of seek, then read
+        for b in (1..=n / C).map(|i| i * C).filter(|b| *b < n) {
+            for back in [1usize, 100, C] {
+                for d in [0usize, 1, 15, 16, 17, 31, 32, 33, 47, 48, 100] {
+                    if b + d > n { continue; }
+                    for kind in 0..3 {
+                        let mut r = preader(&s);
+                        let mut c = Cursor::new(&plain[..]);
+                        r.seek(SeekFrom::Start((b - back) as u64)).unwrap();
+                        c.seek(SeekFrom::Start((b - back) as u64)).unwrap();
+                        let mut one = [0u8; 1];
+                        r.read_exact(&mut one).unwrap();
+                        c.read_exact(&mut [0u8; 1]).unwrap();
+                        let t = (b + d) as i64;
+                        let (g, w) = match kind {
+                            0 => (r.seek(SeekFrom::Start(t as u64)), c.seek(SeekFrom::Start(t as u64))),
+                            1 => { let cur = c.position() as i64; (r.seek(SeekFrom::Current(t - cur)), c.seek(SeekFrom::Current(t - cur))) }
+                            _ => (r.seek(SeekFrom::End(t - n as i64)), c.seek(SeekFrom::End(t - n as i64))),
+                        };
+                        assert_eq!(g.unwrap(), w.unwrap(), "len {n}: seek kind {kind} from chunk {} to {t} returned a different position", b / C - 1);
+                        let mut x1 = [0u8; 40];
+                        let mut x2 = [0u8; 40];
+                        let w2 = c.read(&mut x2).unwrap();
+                        let mut g2 = 0;
+                        while g2 < w2 {
+                            let m = r.read(&mut x1[g2..w2]).unwrap_or_else(|e| panic!("len {n}: read after seek kind {kind} to {t} failed: {e}"));
+                            if m == 0 { break; }
+                            g2 += m;
+                        }
+                        assert!(g2 == w2 && x1[..g2] == x2[..w2], "len {n}: after a read at {} and a seek (kind {kind}) to {t}, the bytes read are not the plaintext at {t}", b - back);
+                    }
+                }
+            }
+        }
         for _round in 0..6 {
             let mut r = preader(&s);
             let mut c = Cursor::new(&plain[..]);
             for step in 0..40 {
+                // a read into an EMPTY buffer is legal at any point: it returns 0 and changes nothing
+                let z = r.read(&mut []).unwrap_or_else(|e| panic!("len {n} step {step}: empty read failed: {e}"));
+                assert_eq!(z, 0, "len {n} step {step}: empty read returned {z}");
                 let op = next() % 5;
                 let target = if n == 0 { 0 } else { (next() % (n as u64 + 1)) as i64 };
                 let (got, want) = match op {
